@@ -61,6 +61,7 @@ class FnTarget:
         self.closures = {}     # closure ordinal -> contract text for the k-th closure expression of the body
         self.params_to_let = False  # R8: destructuring closure parameters become a `let` at the head of the closure body
         self.map_to_match = set()   # R13: headers of closures whose `RECV.map(|p| body)` is written out as a match
+        self.tfe = {}          # R15: closure header -> (loop spec text, ghost iterator name) for `RECV.try_for_each(|p| body)` written out as a loop
         self.omit = False
         self.canary = True
         self.opt_member = False  # `//@ fn? NAME`: the member may be absent from the impl/trait (skipped + recorded)
@@ -224,6 +225,8 @@ class Assembler:
                         tgt.tail = text
                     elif kind == 'closure':
                         tgt.closures[cur_field[1]] = text
+                    elif kind == 'tfe':
+                        tgt.tfe[cur_field[1]] = (text, cur_field[2])
                     elif kind == 'hint-last':
                         tgt.hints.append(('#LAST ' + cur_field[1], text, False))
                     elif kind == 'hint':
@@ -355,6 +358,37 @@ class Assembler:
                             blk.cur.map_to_match.add(''.join(key_.split()))
                             if opt_:
                                 blk.cur.optional.add(('map-to-match', ''.join(key_.split())))
+                        elif d.startswith('try-for-each-to-loop? ') or d.startswith('try-for-each-to-loop '):
+                            # R15 (opt-in): `RECV.try_for_each(|p| body)`, addressed by the closure's parameter list `/|p|/`, is
+                            # written out by the definition of Iterator::try_for_each for a Result ("applies a fallible function
+                            # to each item, stopping at the first error and returning that error"):
+                            #   { let mut __rbv_tfe_r_N = Ok(()); let __rbv_tfe_v_N = RECV; let __rbv_tfe_f_N = |p| body;
+                            #     for __rbv_tfe_x_N in ITER: __rbv_tfe_v_N  <the text of this field: invariant .. ensures ..>
+                            #     { match __rbv_tfe_f_N(__rbv_tfe_x_N) { Ok(()) => {} Err(e) => { __rbv_tfe_r_N = Err(e); break; } } }
+                            #     __rbv_tfe_r_N }
+                            # (N = ordinal of the rewrite in the fn; ITER = `iter=NAME`, default __rbv_tfe_it_N).  A `.into_iter()` that
+                            # ends RECV is dropped (`for` applies it) and `let ghost __rbv_tfe_s_N = __rbv_tfe_v_N@;` names the items.
+                            # The closure keeps its own tokens (`closure` / `closure-params-to-let` apply to it as usual).  Verus has no
+                            # specification for try_for_each and refuses an assume_specification for a provided trait method.
+                            # In the field text `$r` `$f` `$s` `$v` stand for the generated names of result / closure / item sequence / receiver.
+                            opt_ = d.startswith('try-for-each-to-loop? ')
+                            rest_ = d.split(None, 1)[1].strip()
+                            e_ = rest_.rindex('/') if '/' in rest_ else -1
+                            # `try-for-each-to-loop K` addresses the K-th closure of the fn instead (two calls whose closures read alike)
+                            if rest_.startswith('/'):
+                                key_, tail_ = _loop_key(rest_[:e_ + 1]), rest_[e_ + 1:]
+                            else:
+                                key_, tail_ = int(rest_.split()[0]), ' '.join(rest_.split()[1:])
+                            it_ = None
+                            for opt in tail_.split():
+                                if not re.match(r'^iter=[A-Za-z_]\w*$', opt):
+                                    raise UnitSyntax('line %d: bad try-for-each-to-loop option %r' % (i + 1, opt))
+                                it_ = opt[5:]
+                            if isinstance(key_, str):
+                                key_ = ''.join(key_.split())
+                            cur_field = ('tfe', key_, it_)
+                            if opt_:
+                                blk.cur.optional.add(('tfe', key_))
                         elif d == 'no-canary':
                             blk.cur.canary = False
                         elif d.startswith('as-spec '):
@@ -581,6 +615,8 @@ class Assembler:
             seen_loops = set()
             closure_no = 0
             seen_closures = set()
+            tfe_no = 0
+            seen_tfe = set()
             while k < b:
                 t = st[k]
                 if t.kind == 'ident' and t.text in LOOP_KW and not (t.text == 'for' and st[k + 1].text == '<'):
@@ -772,6 +808,57 @@ class Assembler:
                         tgt.map_to_match.discard(chdr)
                         k = pe + 1
                         continue
+                    tfe_close = None
+                    tkey = None
+                    if tgt and closure_no in tgt.tfe:
+                        tkey = closure_no
+                    elif tgt and chdr in tgt.tfe and st[k - 2].text == 'try_for_each':
+                        tkey = chdr
+                    if tkey is not None:
+                        # R15: RECV.try_for_each(|p| body) written out as a loop (see the directive); a header key applies to
+                        # every try_for_each of the fn whose closure reads like that
+                        if not (st[k - 1].text == '(' and st[k - 2].text == 'try_for_each' and st[k - 3].text == '.'):
+                            raise AnchorLost('closure %s of fn %s is not the argument of `.try_for_each(`' % (chdr, tgt.name))
+                        seen_tfe.add(tkey)
+                        tfe_no += 1
+                        kc = match_close(st, k - 1)
+                        r0 = k - 4
+                        rdepth = 0
+                        while r0 > a:
+                            tr = st[r0]
+                            if tr.kind == 'punct' and tr.text in ')]}':
+                                rdepth += 1
+                            elif tr.kind == 'punct' and tr.text in '([{':
+                                if rdepth == 0:
+                                    break
+                                rdepth -= 1
+                            elif rdepth == 0 and (tr.text in (';', ',', '=', '=>', 'return')):
+                                break
+                            r0 -= 1
+                        r0 += 1
+                        last = kc - 1
+                        if st[last].text == ',':
+                            last -= 1
+                        ftext, itname = tgt.tfe[tkey]
+                        nr, nv, nf, nx, ns = ('__rbv_tfe_%s_%d' % (c_, tfe_no) for c_ in 'rvfxs')
+                        itname = itname or '__rbv_tfe_it_%d' % tfe_no
+                        into_iter = [x.text for x in st[k - 7:k - 3]] == ['.', 'into_iter', '(', ')'] and k - 7 > r0
+                        edits.append((st[r0].start, st[r0].start, '{ let mut %s = Ok(()); let %s = ' % (nr, nv)))
+                        if into_iter:
+                            edits.append((st[k - 7].start, st[k - 1].end, '; let ghost %s = %s@; let %s = ' % (ns, nv, nf)))
+                        else:
+                            edits.append((st[k - 3].start, st[k - 1].end, '; let %s = ' % nf))
+                        for ph_, nm_ in (('$r', nr), ('$v', nv), ('$f', nf), ('$s', ns)):
+                            ftext = ftext.replace(ph_, nm_)
+                        cny = ''
+                        if canary and tgt.canary:
+                            cny = '\nproof { assert(false); } // RBVERIF_CANARY\n'
+                            self.canaries += 1
+                        tfe_close = (st[last].end, st[kc].end,
+                                     ';\nfor %s in %s: %s\n%s\n{%s match %s(%s) { Ok(()) => {} Err(__rbv_tfe_e) => { %s = Err(__rbv_tfe_e); break; } } }\n%s }'
+                                     % (nx, itname, nv, ftext, cny, nf, nx, nr, nr))
+                        self.rewrites.append('R15 %s:%d closure #%d of fn %s: `RECV.try_for_each(%s body)` written out as a loop that stops at the first Err (definition of Iterator::try_for_each)%s'
+                                             % (blk.relpath, src.line_of(t.start), closure_no, tgt.name, chdr, '; trailing .into_iter() of RECV dropped' if into_iter else ''))
                     # R8 (opt-in, `//@ closure-params-to-let`): a closure parameter that is a destructuring pattern,
                     # `|S { f, .. }| body`, is moved into a `let` at the head of the body:
                     # `|__rbv_pN| { let S { f, .. } = __rbv_pN; body }` -- the definition of a pattern parameter
@@ -852,6 +939,8 @@ class Assembler:
                                 q += 1
                             edits.append((st[pe].end, st[pe].end, (pre if pre else ' ') + '{' + lets))
                             edits.append((st[q - 1].end, st[q - 1].end, ' }'))
+                    if tfe_close is not None:
+                        edits.append(tfe_close)
                     k = pe + 1
                     continue
                 elif t.kind == 'ident' and k + 2 < b and st[k + 1].text == '!' and st[k + 2].text in ('(', '[', '{'):
@@ -927,6 +1016,9 @@ class Assembler:
                     if ('map-to-match', n) in tgt.optional:
                         continue
                     raise AnchorLost('fn %s has no `.map(%s ..)` in %s' % (tgt.name, n, blk.relpath))
+                for n in tgt.tfe:
+                    if n not in seen_tfe and ('tfe', n) not in tgt.optional:
+                        raise AnchorLost('fn %s has no `.try_for_each(%s ..)` in %s' % (tgt.name, n, blk.relpath))
                 for n in tgt.closures:
                     if n not in seen_closures and ('closure', n) not in tgt.optional:
                         raise AnchorLost('fn %s has no closure #%s (found %d) in %s' % (tgt.name, n, closure_no, blk.relpath))
